@@ -873,9 +873,11 @@ class Dict(dict, base.Symbolic, pg_typing.CustomTyping):
     value = pg_typing.MISSING_VALUE
     if key in self:
       value = self.sym_getattr(key)
-    if value == pg_typing.MISSING_VALUE:
+    if pg_typing.MISSING_VALUE == value:
       self[key] = default
-      value = default
+      # NOTE: as for a standard dict, the caller gets the object that is
+      # stored, which for a container is its symbolic counterpart.
+      value = self.sym_getattr(key, default)
     return value
 
   def update(
